@@ -3,8 +3,9 @@
    every flag, and ALL words over ALL symbols (a word containing a symbol outside the alphabet is
    rejected: `promised syms c P w` = w is over syms and satisfies P, resp. not P when c = false). *)
 From Coq Require Import List Arith Bool.
-From AV Require Import Base.Util Spec.Lang Spec.FA Spec.Preds Model.Decide Model.Product Model.Construct
-                       Proofs.Preds Proofs.Border Proofs.Construct Proofs.IsMinimal.
+From AV Require Import Base.Util Spec.Lang Spec.FA Spec.Minimal Spec.Preds Model.Decide Model.Product Model.Construct
+                       Model.KMP Model.AhoCorasick
+                       Proofs.Preds Proofs.Border Proofs.Construct Proofs.IsMinimal Proofs.CtorMinimal Proofs.KMP Proofs.ACLang.
 Import ListNotations.
 
 (* ---- from_prefix: contains / complement, partial / complete ---- *)
@@ -74,6 +75,102 @@ Proof.
   intros k Hk Hs. apply lps_max. split; assumption.
 Qed.
 Print Assumptions C15_longest_border_step.
+
+(* ---- the mirror model of the code of from_substring / from_suffix (Model/KMP.v: the Knuth-Morris-Pratt
+        failure table with its `kmp_table[i] = kmp_table[candidate]` shortcut, the candidate walk per state and
+        symbol, `limit`, the walked row of the full-match state when must_be_suffix) never raises, never runs
+        out of fuel, and returns EXACTLY the specification model: same states, same transition table row by
+        row, same final states - for every alphabet, every pattern (the empty one included), both flags ---- *)
+Theorem C15_kmp_faithful : forall syms p contains must_be_suffix,
+  kmp_dfa syms p contains must_be_suffix = Ok (from_substring_m syms p contains must_be_suffix).
+Proof. exact kmp_dfa_faithful. Qed.
+Print Assumptions C15_kmp_faithful.
+
+(* what the table holds: entry c < |p| is the strong failure link of position c - the longest proper border k
+   of p[0..c) with p[k] <> p[c], -1 (None) if there is none; the appended entry |p| is the longest proper
+   border of p *)
+Theorem C15_kmp_table_spec : forall p, p <> [] ->
+  exists T, kmp_table p = Ok (T ++ [Some (pb p (length p))]) /\ length T = length p /\
+    (forall c, c < length p -> exists r, nth_error T c = Some r /\
+       (forall k, r = Some k -> pbord p c k /\ nth_error p k <> nth_error p c) /\
+       (forall k, pbord p c k -> nth_error p k <> nth_error p c -> exists k', r = Some k' /\ k <= k')) /\
+    pbord p (length p) (pb p (length p)) /\
+    (forall k, pbord p (length p) k -> k <= pb p (length p)).
+Proof.
+  intros p Hne. assert (Hn : 1 <= length p) by (destruct p; [congruence|simpl; apply le_n_S, Nat.le_0_l]).
+  destruct (kmp_table_ok p Hn) as [T [E [HL HT]]]. exists T. split; [exact E|]. split; [exact HL|]. split.
+  - intros c Hc. destruct (HT c Hc) as [r [Er [S1 S2]]]. exists r. split; [exact Er|]. split; assumption.
+  - split; [apply pb_pbord; [exact Hn|apply le_n]|]. intros k Hk. apply pb_max; [exact Hn|apply le_n|exact Hk].
+Qed.
+Print Assumptions C15_kmp_table_spec.
+
+(* ---- from_substrings: the mirror model of the Aho-Corasick construction (Model/AhoCorasick.v: trie with labels
+        in insertion order, breadth-first failure links, output inheritance along failure links, the goto
+        completion loop, the absorbing end state when not must_be_suffix, the early return for the empty pattern).
+        The patterns are a LIST (the iteration order of the Python set is a schedule); every theorem is for ALL
+        lists, so the language does not depend on the order (C15_from_substrings_order_independent).
+        The model never raises / never runs out of fuel, its result is a valid DFA, and it accepts exactly the
+        words over the alphabet that end with (must_be_suffix) / contain a pattern, or the complement. ---- *)
+Theorem C15_from_substrings_suffix_lang : forall syms pats contains, NoDup syms ->
+  exists m, ac_dfa syms pats contains true = Ok m /\ valid_dfa m = true /\
+            L_dfa m =L promised syms contains (ends_with_any pats).
+Proof.
+  intros syms pats c Hnd. destruct (ac_dfa_suffix_correct syms pats c Hnd) as [m [E [V A]]].
+  exists m. split; [exact E|]. split; [exact V|].
+  apply (promised_lang _ syms c (ends_with_any pats) (anysufb pats)); [intro w; apply anysufb_spec|exact A].
+Qed.
+Print Assumptions C15_from_substrings_suffix_lang.
+
+(* "contains one of the patterns": needs the patterns to be over the alphabet - see the refuted instance below *)
+Theorem C15_from_substrings_lang : forall syms pats contains, NoDup syms ->
+  (forall p, In p pats -> word_over syms p) ->
+  exists m, ac_dfa syms pats contains false = Ok m /\ valid_dfa m = true /\
+            L_dfa m =L promised syms contains (contains_any pats).
+Proof.
+  intros syms pats c Hnd Ho. destruct (ac_dfa_substring_correct syms pats c Hnd Ho) as [m [E [V A]]].
+  exists m. split; [exact E|]. split; [exact V|].
+  apply (promised_lang _ syms c (contains_any pats) (anysubb pats)); [intro w; apply anysubb_spec|exact A].
+Qed.
+Print Assumptions C15_from_substrings_lang.
+
+(* the iteration order of the pattern set (and repetitions) cannot be observed in the language *)
+Theorem C15_from_substrings_order_independent : forall syms pats pats' contains ms, NoDup syms ->
+  (forall p, In p pats <-> In p pats') -> (forall p, In p pats -> word_over syms p) ->
+  exists m m', ac_dfa syms pats contains ms = Ok m /\ ac_dfa syms pats' contains ms = Ok m' /\ L_dfa m =L L_dfa m'.
+Proof.
+  intros syms pats pats' c ms Hnd Hsame Ho.
+  assert (Ho' : forall p, In p pats' -> word_over syms p) by (intros p Hp; apply Ho, Hsame; exact Hp).
+  destruct ms.
+  - destruct (C15_from_substrings_suffix_lang syms pats c Hnd) as [m [E [_ L]]].
+    destruct (C15_from_substrings_suffix_lang syms pats' c Hnd) as [m' [E' [_ L']]].
+    exists m, m'. split; [exact E|]. split; [exact E'|]. intro w. rewrite (L w), (L' w). unfold promised, ends_with_any.
+    assert (H : (exists p, In p pats /\ has_suffix p w) <-> (exists p, In p pats' /\ has_suffix p w)).
+    { split; intros [p [Hp Hs]]; exists p; (split; [apply Hsame; exact Hp|exact Hs]). }
+    destruct c; simpl; rewrite H; reflexivity.
+  - destruct (C15_from_substrings_lang syms pats c Hnd Ho) as [m [E [_ L]]].
+    destruct (C15_from_substrings_lang syms pats' c Hnd Ho') as [m' [E' [_ L']]].
+    exists m, m'. split; [exact E|]. split; [exact E'|]. intro w. rewrite (L w), (L' w). unfold promised, contains_any.
+    assert (H : (exists p, In p pats /\ contains_substring p w) <-> (exists p, In p pats' /\ contains_substring p w)).
+    { split; intros [p [Hp Hs]]; exists p; (split; [apply Hsame; exact Hp|exact Hs]). }
+    destruct c; simpl; rewrite H; reflexivity.
+Qed.
+Print Assumptions C15_from_substrings_order_independent.
+
+(* the trie / failure-link phase on its own: never fails, and its result satisfies the classical specification
+   (string of a node = path from the root; fail = node of the longest proper suffix in the trie, None for the
+   root; out non-empty iff a pattern is a suffix of the node's string) *)
+Theorem C15_aho_corasick_links : forall pats, (forall p, In p pats -> p <> []) ->
+  exists N, ac_trie pats = Ok N /\ ac_spec N pats.
+Proof. exact ac_trie_ok. Qed.
+Print Assumptions C15_aho_corasick_links.
+
+(* GENUINE DEFECT of the code, visible in the faithful model: a pattern with a symbol outside the alphabet leaves
+   trie nodes unvisited by the goto loop, `end_state = len(transitions)` then collides with the label of a
+   visited node.  Alphabet {0}, patterns 11 and 00 (in this order), contains, not must_be_suffix: the word 0
+   is accepted although neither pattern occurs in it.  (DFA.from_substrings({"a"}, {"bb","aa"}) accepts "a".) *)
+Example C15_from_substrings_foreign_symbol_refuted :
+  exists m, ac_dfa [0] [[1;1];[0;0]] true false = Ok m /\ dfa_acc m [0] = true /\ anysubb [[1;1];[0;0]] [0] = false.
+Proof. eexists. split; [vm_compute; reflexivity|]. vm_compute. split; reflexivity. Qed.
 
 (* ---- of_length: counted symbols (all symbols when symbols_to_count is None) in [lo, hi] ---- *)
 Theorem C15_of_length_lang : forall syms lo hi cnt,
@@ -162,22 +259,26 @@ Print Assumptions C15_universal_empty.
 
 (* ---- minimality ----
    is_minimal (executable; evaluated by the extracted code on every implementation result whose
-   docstring promises "the minimal DFA") is sound: full statement below.  Its proof needs the
-   Myhill-Nerode lower bound, which is theorem C05_nerode_lower_bound on branch `minim`
-   (coq/Props/P_C05.v) - not duplicated here.  What is proved here: the statement follows from
-   exactly that lower bound (nerode_lower_bound_statement is C05_nerode_lower_bound's statement,
-   verbatim); after the merge the full statement is closed by
-     exact (C15_is_minimal_sound_partial C05_nerode_lower_bound).                          *)
-Definition C15_is_minimal_sound_statement : Prop :=
-  forall m, valid_dfa m = true -> is_minimal m = true ->
-    (forall m', valid_dfa m' = true -> complete m' -> d_syms m' = d_syms m -> L_dfa m' =L L_dfa m ->
-                size m <= size m') /\
-    (d_partial m = true ->
-     forall m', valid_dfa m' = true -> L_dfa m' =L L_dfa m -> size m <= size m').
+   docstring promises "the minimal DFA") is sound: a valid DFA that passes it is minimal among the
+   DFAs of its own kind (Spec/Minimal.v): no complete DFA over the same alphabet for the same
+   language is smaller, and - when the DFA is flagged partial - no DFA at all is smaller.
+   (Myhill-Nerode lower bound: Proofs/Minimize.v, theorem C05_nerode_lower_bound.) *)
+Definition minimal_of_kind (m : dfa) : Prop :=
+  minimal_complete m /\ (d_partial m = true -> minimal_partial m).
 
-Theorem C15_is_minimal_sound_partial : nerode_lower_bound_statement -> C15_is_minimal_sound_statement.
-Proof. exact is_minimal_sound_of_lower_bound. Qed.
-Print Assumptions C15_is_minimal_sound_partial.
+Theorem C15_is_minimal_sound : forall m, valid_dfa m = true -> is_minimal m = true -> minimal_of_kind m.
+Proof. exact is_minimal_sound. Qed.
+Print Assumptions C15_is_minimal_sound.
+
+(* and complete: accessible + pairwise distinguishable (+ live when flagged partial) passes the test *)
+Theorem C15_is_minimal_complete : forall m, valid_dfa m = true ->
+  (forall r, In r (d_states m) -> exists u, dfa_run m (Some (d_init m)) u = Some r) ->
+  (forall r1 r2, In r1 (d_states m) -> In r2 (d_states m) -> r1 <> r2 ->
+     exists w, dfa_acc_from m (Some r1) w <> dfa_acc_from m (Some r2) w) ->
+  (d_partial m = true -> forall r, In r (d_states m) -> exists w, dfa_acc_from m (Some r) w = true) ->
+  is_minimal m = true.
+Proof. exact is_minimal_intro. Qed.
+Print Assumptions C15_is_minimal_complete.
 
 (* the ingredients of the test mean what they say *)
 Theorem C15_is_minimal_ingredients : forall m p q, valid_dfa m = true -> In p (d_states m) -> In q (d_states m) ->
@@ -209,6 +310,22 @@ Example C15_example_substring :     (* self-overlapping pattern 0 0 1 0 0 *)
   from_substring_m [0;1] [] false true = empty_m [0;1].
 Proof. vm_compute. repeat split. Qed.
 
+Example C15_example_kmp :      (* the table of the code on 0 0 1 0 0 and on 0 1 0 1 0 2 0; None = -1 *)
+  kmp_table [0;0;1;0;0] = Ok [None; None; Some 1; None; None; Some 2] /\
+  kmp_table [0;1;0;1;0;2;0] = Ok [None; Some 0; None; Some 0; None; Some 3; None; Some 1] /\
+  kmp_dfa [0;1] [0;0;1;0;0] true true = Ok (from_suffix_m [0;1] [0;0;1;0;0] true).
+Proof. vm_compute. repeat split. Qed.
+
+Example C15_example_aho_corasick :      (* patterns 0 1 and 1 1 0, in this order: labels 0; 1="0", 2="01", 3="1", 4="11", 5="110" *)
+  ac_dfa [0;1] [[0;1];[1;1;0]] true true =
+    Ok (mkdfa [0;1;3;2;4;5] [0;1]
+              [(0,[(0,1);(1,3)]); (1,[(0,1);(1,2)]); (3,[(0,1);(1,4)]); (2,[(0,1);(1,4)]); (4,[(0,5);(1,4)]); (5,[(0,1);(1,2)])]
+              0 [2;5] false) /\
+  (exists m, ac_dfa [0;1] [[0;1];[1;1;0]] true false = Ok m /\ size m = 7 /\
+             dfa_acc m [1;1;1;0;0] = true /\ dfa_acc m [1;0;0;0] = false) /\
+  ac_dfa [0;1] [[];[1]] false true = Ok (empty_m [0;1]).
+Proof. vm_compute. split; [reflexivity|]. split; [eexists; repeat split|reflexivity]. Qed.
+
 Example C15_example_numeric :
   dfa_acc (of_length_m [0;1] 1 (Some 2) (Some [1])) [0;1;0;1;0] = true /\
   dfa_acc (of_length_m [0;1] 1 (Some 2) (Some [1])) [1;1;1] = false /\
@@ -231,15 +348,50 @@ Example C15_example_minimal :
   is_minimal (mkdfa [0;1] [0] [(0,[(0,1)]);(1,[])] 0 [0] true) = false.            (* partial with a dead state *)
 Proof. vm_compute. repeat split. Qed.
 
-(* stretch (T2), stated only: the constructor models themselves are minimal for every non-empty
-   pattern over an alphabet of at least two symbols.  Not proved in general; the bounded instance
-   below (all patterns of length 1-4 over two symbols, 1-3 over three symbols, every flag) is computed. *)
-Definition C15_constructors_minimal_statement : Prop :=
-  forall syms p c, NoDup syms -> 2 <= length syms -> p <> [] -> word_over syms p ->
-    (forall ap, is_minimal (from_prefix_m syms p c ap) = true) /\
-    (forall ms, is_minimal (from_substring_m syms p c ms) = true) /\
-    is_minimal (from_subsequence_m syms p c) = true.
+(* T2: the constructor models themselves are minimal, for ALL parameters: every non-empty pattern over the
+   alphabet (from_substring / from_suffix / from_prefix), every pattern incl. the empty one
+   (from_subsequence), every non-empty range with a counted symbol in the alphabet (of_length), every n and
+   symbol (nth_from_start and the 2^n-state shift register of nth_from_end, one-symbol alphabets included).  Only from_prefix with an error state (complement
+   or complete form) needs a second symbol - otherwise the error state is unreachable.  Each proof exhibits an
+   access word for every state and a distinguishing word for every pair of states (Proofs/CtorMinimal.v);
+   `passes m` = the executable test says so AND m is minimal of its kind in the sense of Spec/Minimal.v. *)
+Definition passes (m : dfa) : Prop := valid_dfa m = true /\ is_minimal m = true /\ minimal_of_kind m.
 
+Theorem C15_constructors_minimal : forall syms, NoDup syms ->
+  passes (universal_m syms) /\ passes (empty_m syms) /\
+  (forall p c, word_over syms p -> passes (from_subsequence_m syms p c)) /\
+  (forall p c ms, p <> [] -> word_over syms p -> passes (from_substring_m syms p c ms)) /\
+  (forall p c, p <> [] -> word_over syms p -> passes (from_suffix_m syms p c)) /\
+  (forall p, p <> [] -> word_over syms p -> passes (from_prefix_m syms p true true)) /\
+  (forall p c ap, p <> [] -> word_over syms p -> 2 <= length syms -> passes (from_prefix_m syms p c ap)) /\
+  (forall lo hi cnt, (exists a, In a syms /\ In a (counted_set syms cnt)) ->
+     match hi with Some h => lo <= h | None => True end -> passes (of_length_m syms lo hi cnt)) /\
+  (forall s n m, nth_from_start_m syms s n = Ok m -> passes m) /\
+  (forall s n m, nth_from_end_m syms s n = Ok m -> passes m).
+Proof.
+  intros syms Hnd.
+  assert (passes_intro : forall m, valid_dfa m = true -> is_minimal m = true -> passes m).
+  { intros m Hv Hm. split; [exact Hv|]. split; [exact Hm|]. exact (is_minimal_sound m Hv Hm). }
+  split; [apply passes_intro; [apply universal_valid|apply universal_is_minimal]; exact Hnd|].
+  split; [apply passes_intro; [apply empty_valid|apply empty_is_minimal]; exact Hnd|].
+  split; [intros p c Hp; apply overb_spec in Hp;
+          apply passes_intro; [apply from_subsequence_valid|apply from_subsequence_is_minimal]; assumption|].
+  split; [intros p c ms Hne Hp; apply overb_spec in Hp;
+          apply passes_intro; [apply from_substring_valid|apply from_substring_is_minimal]; assumption|].
+  split; [intros p c Hne Hp; apply overb_spec in Hp;
+          apply passes_intro; [apply from_substring_valid|apply from_substring_is_minimal]; assumption|].
+  split; [intros p Hne Hp; apply overb_spec in Hp;
+          apply passes_intro; [apply from_prefix_valid|apply from_prefix_is_minimal]; try assumption; discriminate|].
+  split; [intros p c ap Hne Hp H2; apply overb_spec in Hp;
+          apply passes_intro; [apply from_prefix_valid|apply from_prefix_is_minimal]; try assumption; intros _; exact H2|].
+  split; [intros lo hi cnt [a [Ha Hc]] Hr;
+          apply passes_intro; [apply of_length_valid; exact Hnd|apply (of_length_is_minimal syms lo hi cnt a); assumption]|].
+  split; [intros s n m Hm; apply passes_intro; [eapply nth_from_start_valid; eassumption|eapply nth_from_start_is_minimal; eassumption]|].
+  intros s n m Hm. apply passes_intro; [eapply nth_from_end_valid; eassumption|eapply nth_from_end_is_minimal; eassumption].
+Qed.
+Print Assumptions C15_constructors_minimal.
+
+(* the same by computation on all small patterns (kept as a cross-check of the models) *)
 Example C15_constructors_minimal_bounded :
   let ok syms p :=
       match p with
